@@ -375,7 +375,7 @@ pub fn run(tier: Tier, seed: u64, replay: Option<&std::path::Path>) -> i32 {
         tier,
         seed,
         replay,
-        (2000, 12000),
+        (2000, 50000),
         25,
         strategy,
         run_case,
